@@ -225,3 +225,37 @@ Definition hooks_by_name (parent root : bytes) (cs : list tree) (beh : bytes -> 
 (* hm.GetHook(name): the Path of the hook found, "" for nil *)
 Definition get_hook_path (m : by_name) (name : bytes) : bytes :=
   match index_get m name with Some p => p | None => [] end.
+
+(* ---- the KIND of a directory entry (the file-type bits of the mode) ----
+   filepath.Walk learns about every entry through os.Lstat: a symbolic link is reported AS A LINK
+   (mode Lrwxrwxrwx = os.ModeSymlink|0777 on Linux, whatever it points to, IsDir() = false) and is not
+   descended into; a FIFO is reported with os.ModeNamedPipe and its permission bits.  The callback
+   of RecursiveGetExecutablePaths looks at f.IsDir(), f.Name() and f.Mode()&0o111 only - so for the
+   walk an entry of any kind but "directory" is a [File] carrying its Lstat mode.  [xtree] is the
+   tree as it is on disk, [lstat] is what the walk sees of it. *)
+Definition mode_symlink : N := 134217728.          (* os.ModeSymlink   = 1 << 27 *)
+Definition mode_named_pipe : N := 33554432.        (* os.ModeNamedPipe = 1 << 25 *)
+Definition link_mode : N := N.lor mode_symlink 511. (* Lrwxrwxrwx *)
+
+(* what a symbolic link resolves to when it is followed (by execve): a regular file with these
+   permission bits whose content does `code` on --config (0 valid configuration, 1 the run fails,
+   2 invalid configuration); a directory; nothing (dangling, also a loop); a FIFO *)
+Inductive target :=
+| TFile (mode code : N)
+| TDir
+| TDangling
+| TFifo.
+
+Inductive xtree :=
+| XFile (name : bytes) (mode : N)                  (* regular file, permission bits *)
+| XDir (name : bytes) (children : list xtree)
+| XLink (name : bytes) (tgt : target)              (* symbolic link *)
+| XFifo (name : bytes) (mode : N).                 (* named pipe, permission bits *)
+
+Fixpoint lstat (x : xtree) : tree :=
+  match x with
+  | XFile n m => File n m
+  | XDir n cs => Dir n (map lstat cs)
+  | XLink n _ => File n link_mode
+  | XFifo n m => File n (N.lor mode_named_pipe m)
+  end.
